@@ -3,7 +3,7 @@
    ([inv], [content], [terminated], [op_ok], [spec_ok], [step_refines], [step_terminates],
    [steps] = every (state, op, result) triple of a history).  Proofs: C06/StrProofs.v. *)
 From Coq Require Import NArith ZArith List Bool.
-From LibaV Require Import C06.StrDefs C06.StrSpec C06.StrProofs.
+From LibaV Require Import C06.StrDefs C06.StrSpec C06.StrProofs C06.StrBig.
 Import ListNotations.
 Local Open Scope N_scope.
 
@@ -139,3 +139,17 @@ Theorem inv_without_size_bound_refuted :
               let '(m', r, _) := step o m in r = RInt A_SUCCESS /\ ~ minv m'.
 Proof. exact setm_wrap_refuted. Qed.
 Print Assumptions inv_without_size_bound_refuted.
+
+(* Comparison with a very long operand: for EVERY length n (2^31, 2^32 and beyond included) comparing with n zero
+   bytes has the closed form [cmpn_zeros], which never builds more than [num s] bytes - this is what the check runs
+   against a_str_cmpn called with a sparse zero mapping of more than 4 GiB ... *)
+Theorem cmpn_long_operand_closed_form : forall s n, cmpn s (zeros n) = cmpn_zeros s n.
+Proof. exact cmpn_zeros_ok. Qed.
+Print Assumptions cmpn_long_operand_closed_form.
+
+(* ... and when the content is a prefix of the operand the result is the sign of the length difference, whatever its
+   size: the tie-break is not computed in a type narrower than a_size. *)
+Theorem cmp_length_tie_break_any_size : forall a n m, (forall x, In x (take n a) -> x = 0) -> n <= len a ->
+  cmpn_zeros (mkStr (Some a) n (len a)) m = Some (lencmp n m).
+Proof. exact cmpn_zeros_prefix. Qed.
+Print Assumptions cmp_length_tie_break_any_size.
